@@ -37,8 +37,9 @@ def r16_1(ctx):
     before_fmt = True
     first_fmt_line = min([n.lineno for n in ast.walk(fe.node) if isinstance(n, ast.Attribute) and n.attr == "code_format"] or [10**9])
     ctx.check("one instruction sequence for both layouts, built before the layout is consulted", len(seqs) == 1 and seqs[0].lineno < first_fmt_line, "single Sequence(...) above the first use of code_format", f"{len(seqs)} constructions; layout first read at line {first_fmt_line}", fn_where(idx, fe))
-    rets = [n for n in ast.walk(fe.node) if isinstance(n, ast.AugAssign) and "return" in U(n.value)]
-    ctx.check("the returned effect is the instruction sequence in both layouts", len(rets) == 1 and U(rets[0].value) == "f'return {instruction_sequence.effect_var()};'", "res += f'return {instruction_sequence.effect_var()};' (unconditional)", str([U(r.value) for r in rets]), fn_where(idx, fe))
+    from .c11 import final_return_checks
+
+    final_return_checks(ctx)
     gm = idx.func("HexagonTransformerExtension.get_meta")
     ctx.check("attributes do not depend on the layout", "code_format" not in U(gm.node) and "transformer" not in U(gm.node), "get_meta reads only its own flags", "reads transformer state", fn_where(idx, gm))
 
@@ -47,10 +48,7 @@ def r16_1(ctx):
 def r16_2(ctx):
     idx = get_index(ctx.env)
     fb = idx.func("RZILTransformer.fbody")
-    tests = [(U(n.test), [call_tail(c) for s in n.body for c in ast.walk(s) if isinstance(c, ast.Call)]) for n in ast.walk(fb.node) if isinstance(n, ast.If) and "code_format" in U(n.test)]
-    exp = [("self.code_format in [CodeFormat.EXEC_CLASSES, CodeFormat.READ_STATEMENTS]", ["emit_read_block"]), ("self.code_format in [CodeFormat.EXEC_CLASSES]", ["emit_exec_block"]),
-           ("self.code_format in [CodeFormat.EXEC_CLASSES]", ["emit_write_block"]), ("self.code_format == CodeFormat.READ_STATEMENTS", ["emit_stmt_blocks"])]
-    ctx.check("fbody layout switch", tests == exp, str(exp), str(tests), fn_where(idx, fb))
+    from .c11 import r11_3  # block order per layout is decided there (abstract run of fbody per CodeFormat member)
     members = set(idx.enum_table("CodeFormat"))
     ctx.check("layouts", members == {"EXEC_CLASSES", "READ_STATEMENTS"}, "{EXEC_CLASSES, READ_STATEMENTS}", str(sorted(members)), fn_where(idx, fb))
     def loop_src(q):
@@ -75,8 +73,16 @@ def r16_2(ctx):
     ctx.check("hybrids are registered as exec and write operand", stores == ["self.exec_ops[hybrid.get_name()]", "self.write_ops[hybrid.get_name()]"], "exec_ops and write_ops", str(stores), fn_where(idx, fa))
     # dependency walk covers PureExec operands transitively and nested effects
     fg = idx.func("Effect.get_exec_op_list")
-    src = U(fg.node)
-    ctx.check("dependency walk: PureExec operands transitively, nested effects, starting from effect_ops", "[x] + [get_ops(y) for y in x.ops]" in src and "x.get_exec_op_list()" in src and "for o in self.effect_ops" in src, "get_ops over self.effect_ops", "differs", fn_where(idx, fg))
+    def once(i):
+        x = AObj("Pure", {}, label="x", opaque=True)
+        p2 = AObj("PureExec", {"ops": [x]}, label="p2")
+        p1 = AObj("PureExec", {"ops": [p2, x]}, label="p1")
+        p3 = AObj("PureExec", {"ops": []}, label="p3")
+        inner = AObj("Effect", {"effect_ops": [p3]}, label="inner")
+        return i.call_function(fg, [], self_obj=AObj("Effect", {"effect_ops": [x, p1, inner]}, label="self"))
+    outs = Interp(idx).explore(once)
+    got = [[getattr(v, "label", v) for v in o.value] if o.kind == "return" else str(o.value) for o in outs]
+    ctx.check("dependency walk: PureExec operands transitively (outer first), nested effects, starting from effect_ops", got == [["p1", "p2", "p3"]], "['p1', 'p2', 'p3']", str(got), fn_where(idx, fg))
 
 
 @rule("R16.3", "C16", "what the statement layout walks (effect_ops) stays in step with the operands: src/dest are re-bound only through the setters; every created node is registered", min_instances=10)
@@ -143,4 +149,10 @@ def r16_4(ctx):
     stores = sorted({U(n.targets[0]) for n in ast.walk(fa.node) if isinstance(n, ast.Assign)})
     ctx.check("operand lists are filled in creation order", stores == ["self.exec_ops[pure.get_name()]", "self.read_ops[pure.get_name()]"], "item stores keyed by name", str(stores), fn_where(idx, fa))
     fg = idx.func("ILOpsHolder.get_op_count")
-    ctx.check("creation ids are integers from one counter", "self.op_count += 1" in U(fg.node), "post-incremented integer", "differs", fn_where(idx, fg))
+    box = {}
+    def once(i):
+        h = AObj("ILOpsHolder", {"op_count": 3}, label="h")
+        box["h"] = h
+        return [i.call_function(fg, [], self_obj=h), i.call_function(fg, [], self_obj=h)]
+    outs = Interp(idx).explore(once)
+    ctx.check("creation ids are consecutive integers from one counter", [o.value for o in outs] == [[3, 4]], "[3, 4]", str([o.value for o in outs]), fn_where(idx, fg))
